@@ -122,7 +122,7 @@ Definition owned_by (s : N) (fs : list far) (qs : list qer) : Prop :=
   (forall f, In f fs -> a_fseid f = s) /\ (forall q, In q qs -> q_fseid q = s).
 Definition pdr_cmds (ps : list pdr) : list cmd := flat_map pdr_add ps ++ flat_map pdr_del ps.
 (* the commands a session can ever send: adds and deletes of its rules *)
-Definition session_cmds (burst : N -> N -> N -> N) (ps : list pdr) (fs : list far) (qs : list qer) : list cmd :=
+Definition rule_cmds (burst : N -> N -> N -> N) (ps : list pdr) (fs : list far) (qs : list qer) : list cmd :=
   add_cmds burst ps fs qs ++ del_cmds ps fs qs.
 (* a FAR / QER slot (module, key) of the session with local SEID [s]; a command addressing such a slot *)
 Definition slot_of_fseid (m : module) (k : list N) (s : N) : Prop :=
